@@ -351,6 +351,9 @@ type c20StraceLoad struct {
 	Ctx     string `json:"ctx"`
 	Loc     string `json:"loc"`
 	Refused bool   `json:"refused"`
+	// TopRoot: the configuration's root is the top of the file system
+	// (RootDir "/"): no file is outside it
+	TopRoot bool `json:"top_root,omitempty"`
 }
 
 type c20StraceCase struct {
@@ -470,7 +473,7 @@ func c20StraceRun(w *fw.W, idx int, side string) {
 				os.Open(fmt.Sprintf("%s/.c20-begin-%d", l.Tree.BasePath, seq))
 				_, _, _, err := lb.lib.LoadSource(lisp.NewSourceContext("c20ctx", ctxLoc), loc)
 				os.Open(fmt.Sprintf("%s/.c20-end-%d", l.Tree.BasePath, seq))
-				cs.Loads = append(cs.Loads, c20StraceLoad{Seq: seq, Lib: lb.label, Ctx: c20CtxLabel(ld), Loc: loc, Refused: err != nil})
+				cs.Loads = append(cs.Loads, c20StraceLoad{Seq: seq, Lib: lb.label, Ctx: c20CtxLabel(ld), Loc: loc, Refused: err != nil, TopRoot: lb.topRoot})
 			}
 		}
 	}
@@ -583,6 +586,15 @@ func c20DriverStrace(d *fw.D) {
 		}
 		if l.Near {
 			d.Count("strace_opens_in_brackets_near_layouts", 1)
+		}
+		if outside && ld.TopRoot {
+			// judged against the CONFIGURATION's root: with RootDir "/" the sandbox's
+			// root directory is just another directory inside the root (false alarm of
+			// the first run after /repo's RootDir "/" repair: the strace phase compared
+			// with the sandbox root, which no RootDir "/" load could reach while every
+			// such load was refused)
+			d.Count("strace_opens_inside_a_top_of_file_system_root", 1)
+			outside = false
 		}
 		if outside {
 			d.Count("violation:relfs:opened-outside-file"+nearOpened, 1)
